@@ -14,10 +14,10 @@ import aaverisk_lib as L
 from aaverisk_lib import Case, Exact, close, TOL
 
 PROPERTY = "C11"
-LEAN_MODULES = ["Proofs.C11", "Proofs.C11.Max", "Proofs.C11.Invariant"]
+LEAN_MODULES = ["Proofs.C11", "Proofs.C11.Max", "Proofs.C11.Invariant", "Proofs.C11.Refine", "Proofs.C11.RefineWithdraw", "Proofs.C11.RefineInvariant"]
 DRIVERS = ["driver_aaverisk"]
 RULE = ("portfolios over the uppercase symbols of the four risk-parameter CSVs (1-3 collateral supplies, 0-2 non-collateral supplies, 0-3 debts, "
-        "indices 1..3, prices log-uniform over 8 decades) in health classes no-debt / healthy / HF = 1 / HF < 1; one call per case: borrow, withdraw, "
+        "indices 1..3, prices log-uniform over 11 decades (1e-6 .. 1e5)) in health classes no-debt / healthy / HF = 1 / HF < 1; one call per case: borrow, withdraw, "
         "change_collateral, get_max_borrow_amount (+ borrow of it, borrow(None), borrow beyond the limit), get_max_withdraw_amount (+ withdraw of it, "
         "beyond it); plus SEQUENCES of 4-9 calls on one market inside one bar (borrow - mostly the same token again and again -, withdraw, change_collateral, "
         "supply, repay with cash / collateral, figures read in between so that the next call meets warm caches), every amount aimed at the frontier of the "
@@ -50,6 +50,25 @@ def gen_portfolio(rng, exact, special=False):
     names = L.usable_tokens(path)
     collable = [n for n in names if rp.loc[n].usageAsCollateralEnabled]
     colls = rng.sample(collable, min(rng.choice([1, 1, 2, 3]), len(collable)))
+    rp_over = {}
+    mix = rng.random()
+    if not special and mix < 0.22:
+        # a collateral that adds NO borrowing power next to normal ones: LTV 0 with a non-zero liquidation threshold (frozen / isolated
+        # reserves), or the collateral flag on a token the table does not enable (supply(collateral=False) + change_collateral(True)
+        # gets there: only supply() looks at usageAsCollateralEnabled). It counts in the denominator of the weighted max-LTV.
+        if mix < 0.13 and len(colls) >= 1:
+            z = rng.choice(colls) if len(colls) >= 2 else None
+            if z is None:
+                extra_c = [n for n in collable if n not in colls]
+                if extra_c:
+                    z = rng.choice(extra_c)
+                    colls.insert(rng.randint(0, len(colls)), z)
+            if z is not None:
+                rp_over[z] = {"baseLTVasCollateral": "0"}
+        else:
+            off = [n for n in names if not rp.loc[n].usageAsCollateralEnabled and n not in colls]
+            if off:
+                colls.insert(rng.randint(0, len(colls)), rng.choice(off))
     noncoll = [n for n in rng.sample(names, rng.choice([0, 0, 1, 2])) if n not in colls]
     debts = rng.sample(names, rng.choice([0, 1, 1, 2, 3]))
     other = rng.sample(names, 1)           # a token for borrow / unknown-key requests
@@ -59,7 +78,7 @@ def gen_portfolio(rng, exact, special=False):
             toks[n] = {"li": rng.choice(["1", "1.5", "2", "1.25"]), "bi": rng.choice(["1", "2", "2.5"]), "p": rng.choice(["1", "0.5", "2", "1000", "1600", "0.25"])}
         else:
             toks[n] = {"li": str(D(1) + D(rng.randint(0, 2 * 10 ** 9)) / D(10 ** 9)), "bi": str(D(1) + D(rng.randint(0, 2 * 10 ** 27)) / D(10 ** 27)),
-                       "p": str(L.rnd_dec(rng, -4, 4, rng.choice([1, 3, 8])))}
+                       "p": str(L.rnd_dec(rng, -6, 5, rng.choice([1, 3, 8])))}
     supplies = []
     for n in colls:
         val = D(rng.choice([1000, 2000, 33000, 5])) * D(10000) if exact else L.rnd_dec(rng, 0, 7, 6)
@@ -68,7 +87,8 @@ def gen_portfolio(rng, exact, special=False):
     for n in noncoll:
         supplies.insert(rng.randint(0, len(supplies)), [n, str(L.rnd_dec(rng, -2, 6, 5)), False])
     wlt = sum((F(D(b)) * F(D(toks[n]["li"])) * F(D(toks[n]["p"])) * F(rp.loc[n].reserveLiquidationThreshold) for n, b, c in supplies if c), F(0))
-    wltv = sum((F(D(b)) * F(D(toks[n]["li"])) * F(D(toks[n]["p"])) * F(rp.loc[n].baseLTVasCollateral) for n, b, c in supplies if c), F(0))
+    wltv = sum((F(D(b)) * F(D(toks[n]["li"])) * F(D(toks[n]["p"])) * F(D(rp_over[n]["baseLTVasCollateral"]) if n in rp_over else rp.loc[n].baseLTVasCollateral)
+                for n, b, c in supplies if c), F(0))
     health = rng.choice(["healthy", "healthy", "healthy", "ltv-edge", "at1", "below"]) if debts else "nodebt"
     dl = []
     if debts:
@@ -85,7 +105,9 @@ def gen_portfolio(rng, exact, special=False):
             base = total * w / sum(ws) / F(D(toks[n]["p"])) / F(D(toks[n]["bi"]))
             bd = D(base.numerator) / D(base.denominator)
             dl.append([n, str(bd if exact else D(format(bd, ".28e")))])
-    case = Case(path, toks, supplies, dl, {n: "3" for n in list(toks)[:2]}, {})
+    case = Case(path, toks, supplies, dl, {n: "3" for n in list(toks)[:2]}, rp_over)
+    if rp_over and health != "nodebt":
+        health += "+ltv0"
     if special:
         k = rng.choice(["nocoll", "nosupply", "ltv0", "lt0", "price0", "price0-debt"])
         health = k
@@ -287,8 +309,9 @@ def run_case(ctx: Ctx, rng, stream, reqs, forced=None):
         case, health, other = gen_portfolio(rng, stream == "boundary", stream == "special")
         rp = L.load_rp(case.rp_path)
         E = Exact({"supplies": [[n, D(b), c] for n, b, c in case.supplies], "debts": [[n, D(b)] for n, b in case.debts]},
-                  {n: {"li": D(t["li"]), "bi": D(t["bi"]), "p": D(t["p"]), "lt": rp.loc[n].reserveLiquidationThreshold,
-                       "ltv": rp.loc[n].baseLTVasCollateral} for n, t in case.toks.items()})
+                  {n: {"li": D(t["li"]), "bi": D(t["bi"]), "p": D(t["p"]),
+                       "lt": D(case.rp_over.get(n, {}).get("reserveLiquidationThreshold", rp.loc[n].reserveLiquidationThreshold)),
+                       "ltv": D(case.rp_over.get(n, {}).get("baseLTVasCollateral", rp.loc[n].baseLTVasCollateral))} for n, t in case.toks.items()})
         op = rng.choice(["borrow", "borrow", "withdraw", "withdraw", "change", "max_borrow", "max_withdraw", "max_withdraw"])
         sup_names = [s[0] for s in case.supplies]
         if op in ("borrow", "max_borrow"):
@@ -365,7 +388,9 @@ def run_case(ctx: Ctx, rng, stream, reqs, forced=None):
                 beyond = dec(F(mb) / F(99, 100) * (1 + MARGIN * 2), 33)
                 o4 = call(case, lambda m, t: m.borrow(t[tok], beyond))
                 reqs.append((dict(rep, sub="borrow-beyond"), o4, {"fn": "borrow", "tok": tok, "row": o4["rows"][tok], "amount": beyond}))
-                if o4["exc"] is None:
+                # the helper's head-room can itself be at the scale of the 35-digit rounding of the totals (debts within 1e-28 of the limit):
+                # then `limit x (1+2e-9)` is not beyond anything the arithmetic can see; as for max_withdraw, exact arithmetic must be decisive
+                if o4["exc"] is None and E0.total_debt + F(beyond) * F(obs["rows"][tok]["p"]) > E0.weighted_ltv * (1 + F(1, 10 ** 25)):
                     out.append(("max_borrow.beyond-accepted", f"borrow of {beyond} {tok} (limit x (1+2e-9)) accepted"))
                 outcome += ":" + (o2["cause"] or "ok") + ":" + (o4["cause"] or "ok")
     else:  # max_withdraw
@@ -448,12 +473,17 @@ def seq_step(rng, case, m, focus):
     sup_names = [n for n, _, _ in S["supplies"]]
     deb_names = [n for n, _ in S["debts"]]
     k = rng.random()
-    if k < 0.5 or not sup_names:
+    if 0.11 <= k < 0.55 or not sup_names:
         tok = focus if rng.random() < 0.75 else rng.choice(list(case.toks))
         pr = F(rows[tok]["p"])
         front = (E.weighted_ltv - E.total_debt) / pr if pr != 0 else F(1)
         f, cls = rng.choice(SEQ_F)
         return {"op": "borrow", "tok": tok, "amount": str(dec((front if front > 0 else F(1)) * f, 33))}, cls
+    if k < 0.11:
+        # a read-only helper in the middle of the sequence: whatever it looks at, it must leave every figure as it was
+        if rng.random() < 0.65:
+            return {"op": "max_withdraw", "tok": rng.choice(sup_names)}, "helper"
+        return {"op": "max_borrow", "tok": focus if rng.random() < 0.6 else rng.choice(list(case.toks))}, "helper"
     if k < 0.68:
         tok = rng.choice(sup_names)
         s = [x for x in S["supplies"] if x[0] == tok][0]
@@ -496,6 +526,8 @@ def o_monotone(out, obs, op):
             out.append((f"{op}.lowers-hf", f"health factor fell from {float(E0.hf)} to {float(E1.hf)} by an accepted {op}"))
     if E1.total_debt > 0 and (E0.hf is None or E0.hf >= 1) and not hf_ok(E1.hf, dust / E1.total_debt):
         out.append((f"{op}.hf-after", f"health factor {float(E1.hf)} < 1 after an accepted {op} on an account that was healthy ({E0.hf and float(E0.hf)})"))
+    if op in ("max_withdraw", "max_borrow") and (obs["S0"] != obs["S1"] or obs["W0"] != obs["W1"] or obs["acts"]):
+        out.append((f"{op}.changes-state", f"the read-only helper changed positions / wallet / log: {obs['S0']} -> {obs['S1']}"))
     if obs.get("hf1_warm") != obs.get("hf1"):
         out.append((f"{op}.hf-stale", f"health_factor read after the call ({obs.get('hf1_warm')}) differs from its value on cold caches ({obs.get('hf1')})"))
 
@@ -504,7 +536,7 @@ def run_sequence(ctx: Ctx, rng, reqs, forced=None):
     """several calls on ONE market inside one bar: state and caches carried over, limits checked at the frontier after each"""
     if forced is None:
         case, health, other = gen_portfolio(rng, rng.random() < 0.3, False)
-        if health not in ("healthy", "nodebt", "ltv-edge"):
+        if health.split("+")[0] not in ("healthy", "nodebt", "ltv-edge"):
             case.debts = []
             health = "nodebt"
         for n in case.toks:
@@ -546,6 +578,21 @@ def run_sequence(ctx: Ctx, rng, reqs, forced=None):
             reqs.append((rep, obs, {"fn": "changeCollateral", "tok": tok, "flag": spec["flag"]}))
         elif op == "supply":
             obs = call_live(m, b, toks, acts, names, lambda mm, t: mm.supply(t[tok], amount, spec["coll"]), spec["warm"])
+        elif op == "max_withdraw":
+            obs = call_live(m, b, toks, acts, names, lambda mm, t: mm.get_max_withdraw_amount(t[tok]), spec["warm"])
+            reqs.append((rep, obs, {"fn": "maxWithdraw", "tok": tok}))
+            if obs["exc"] is None:
+                E0 = Exact(obs["S0"], obs["rows"])
+                if F(D(obs["ret"])) > E0.sup_amount(tok) * (1 + TOL):
+                    out.append(("max_withdraw.exceeds-supply", f"get_max_withdraw_amount({tok}) = {obs['ret']} exceeds the supplied {float(E0.sup_amount(tok))}"))
+        elif op == "max_borrow":
+            obs = call_live(m, b, toks, acts, names, lambda mm, t: mm.get_max_borrow_amount(t[tok]), spec["warm"])
+            reqs.append((rep, obs, {"fn": "maxBorrow", "row": obs["rows"][tok]}))
+            if obs["exc"] is None:
+                E0 = Exact(obs["S0"], obs["rows"])
+                want = (E0.weighted_ltv - E0.total_debt) * F(99, 100) / F(obs["rows"][tok]["p"])
+                if not close(F(D(obs["ret"])), want, abs_tol=TOL * (E0.weighted_ltv + E0.total_debt) / F(obs["rows"][tok]["p"])):
+                    out.append(("max_borrow.value", f"get_max_borrow_amount = {obs['ret']}, definition gives {float(want)}"))
         else:
             ct = spec.get("collTok")
             obs = call_live(m, b, toks, acts, names, lambda mm, t: mm.repay(t[tok], amount, spec["withColl"], None if ct is None else t[ct]), spec["warm"])
@@ -580,7 +627,9 @@ def compare(ctx: Ctx, rep, obs, req, ans):
         if ans["error"] != obs["exc"]:
             return bad(f"exception class: impl {obs['exc']} model {ans['error']}")
         mc = "hf" if ans["cause"] in ("hfLow", "hfLowAfter") else ans["cause"]
-        if mc != obs["cause"]:
+        if str(obs["cause"]).startswith("?"):
+            ctx.count("assertion_message_not_recognised")      # reworded message: the class is compared, which `require` fired cannot be told
+        elif mc != obs["cause"]:
             bad(f"cause: impl {obs['cause']} model {ans['cause']}")
         return
     if req["fn"] in ("maxBorrow", "maxWithdraw"):
